@@ -1476,12 +1476,19 @@ func runC20(args []string) error {
 	out := fs.String("out", "/verif/work/C20", "output dir")
 	seed := fs.Uint64("seed", 1, "seed")
 	n := fs.Int("n", 400, "cases per family")
+	only := fs.String("only", "", "run only this family (csv: the RPC watcher's CSV registration / HandleCsvTx sequences)")
+	monitor := fs.String("monitor", "c20_monitor", "Coq monitor function (c20_case -> bool)")
+	imports := fs.String("imports", "", "extra Coq import line for the monitor")
 	fs.Parse(args)
 	r := NewRng(*seed)
 	pslog.SetLogger(quietLogger{})
 
-	cf := NewCaseFile("From PS Require Import Model.RpcWatcher Model.ElectrumWatcher Model.C20Corr.",
-		"c20_case", "c20_check", "c20_monitor")
+	cf := NewCaseFile("From PS Require Import Model.RpcWatcher Model.ElectrumWatcher Model.C20Corr.\n"+*imports,
+		"c20_case", "c20_check", *monitor)
+	nConf, nCsv, nElec := *n, *n/2, *n
+	if *only == "csv" {
+		nConf, nCsv, nElec = 0, *n, 0
+	}
 	stepTags := map[string]int{}
 
 	addRpcConf := func(c *rpcConfCase) error {
@@ -1502,22 +1509,24 @@ func runC20(args []string) error {
 		cf.Add(key, key, nontriv || len(c.Steps) > 1, rpcConfKind(c), c)
 		return nil
 	}
-	for _, c := range corpusRpcConf() {
-		if err := addRpcConf(c); err != nil {
-			return err
+	if *only == "" {
+		for _, c := range corpusRpcConf() {
+			if err := addRpcConf(c); err != nil {
+				return err
+			}
 		}
 	}
-	for i := 0; i < *n; i++ {
+	for i := 0; i < nConf; i++ {
 		if err := addRpcConf(genRpcConfChain(r)); err != nil {
 			return err
 		}
 	}
-	for i := 0; i < *n/2; i++ {
+	for i := 0; i < nConf/2; i++ {
 		if err := addRpcConf(genRpcConfSynth(r)); err != nil {
 			return err
 		}
 	}
-	for i := 0; i < *n/2; i++ {
+	for i := 0; i < nCsv; i++ {
 		c := genRpcCsv(r)
 		if err := runRpcCsv(c); err != nil {
 			return err
@@ -1538,7 +1547,7 @@ func runC20(args []string) error {
 		key := c.coq()
 		cf.Add(key, key, cbs > 0 || len(c.Ops) > 1, kind, c)
 	}
-	for i := 0; i < *n; i++ {
+	for i := 0; i < nElec; i++ {
 		c := genElec(r)
 		if err := runElec(c); err != nil {
 			return fmt.Errorf("electrum case: %w", err)
